@@ -25,12 +25,20 @@ func run(c *vkit.Collector, rng *vkit.Rng, budget int) {
 	rng = vkit.NewRng(rng.U64())
 	selfTestOracle(rng.U64)
 	g := &G{r: rng, c: c}
+	// correspondence quotas: q(quick, per) = the quick-tier count, and per*budget for the thorough
+	// and search tiers (the volume lives there; the quick tier keeps every category and class).
+	q := func(quick, per int) int {
+		if budget <= 1 {
+			return quick
+		}
+		return per * budget
+	}
 	t := &T{c: c, used: map[string]int{}, cap: map[string]int{
-		"union": 200 * budget, "union-big": 30 * budget, "invalid-union": 45 * budget,
-		"pair-norm": 110 * budget, "pair-raw": 150 * budget, "pair-norm-big": 10 * budget, "pair-raw-big": 15 * budget,
-		"denorm": 60 * budget, "range": 110 * budget, "maxtile": 250 * budget,
-		"ci-build": 130 * budget, "ci-build-big": 15 * budget, "ci-range": 260 * budget, "ci-access": 15 * budget,
-		"ci-contents": 260 * budget, "find": 80 * budget, "find-big": 8 * budget,
+		"union": q(80, 200), "union-big": q(12, 30), "invalid-union": q(25, 45),
+		"pair-norm": q(45, 110), "pair-raw": q(55, 150), "pair-norm-big": q(5, 10), "pair-raw-big": q(6, 15),
+		"denorm": q(30, 60), "range": q(30, 110), "maxtile": q(120, 250),
+		"ci-build": q(60, 130), "ci-build-big": q(6, 15), "ci-range": q(120, 260), "ci-access": q(10, 15),
+		"ci-contents": q(120, 260), "find": q(28, 80), "find-big": q(3, 8), "find-many": q(2, 3),
 	}}
 	s := &S{c: c, g: g, t: t}
 
@@ -65,6 +73,9 @@ func run(c *vkit.Collector, rng *vkit.Rng, budget int) {
 	s.guard("s2intersect.Find", s.findFixed)
 	for k := 0; k < 1500*budget; k++ {
 		s.guard("s2intersect.Find", s.find1)
+	}
+	for k := 0; k < 400*budget; k++ {
+		s.guard("s2intersect.Find", s.findMany)
 	}
 	t.flush()
 	c.Extra["correspondence_cases_by_category"] = t.used
